@@ -12,5 +12,7 @@ CONSTANTS
   Fault <- F030
   DeferUnlock = TRUE
   StickyError = TRUE
+  Ctx <- C250
+  CtxAwareLock = FALSE
 INVARIANTS Emit OneWriter LinesCorrect BufExclusive
 CHECK_DEADLOCK FALSE
